@@ -2,6 +2,39 @@
 """writes MANIFEST.json from the table below (kept in one place so that it stays valid)"""
 import json
 CHECKS = {
+ "C07": dict(
+   text="Partial proof on a Lean model of the selection logic of handle_events and of the event bookkeeping in integrate, given what the "
+        "root finder and the sampled event function delivered: every reported event is a monitored event that was located successfully and "
+        "crosses in a direction compatible with its direction attribute; reported events are sorted along the direction of integration; an "
+        "event is recorded only if its root lies inside the step and not within the duplicate tolerance of the last recorded event of the "
+        "same function. Tied to the code by recomputing the probes for every step of seeded runs (1..6 events, 12 decades of scale, "
+        "directions, terminal flags, both time directions, dense on/off, boundary crossings) and replaying selection and bookkeeping "
+        "through the model. Not proved: closeness to a root of the exact trajectory (needs C05/C06); measured on the harmonic oscillator. "
+        "Known findings: events are located on the cubic dense output (O(h^4)); event state vs dense output after a terminal stop.",
+   note="Trusted: Lean kernel, standard axioms, harness (the probe recomputation restates the code's sampling offsets).",
+   technique="Lean 4 proof (insertion-sort/truncation lemmas, case analysis) + per-step replay of recorded probes + closed-form oracles",
+   design="5 (C07-C09)"),
+ "C08": dict(
+   text="Partial proof on the selection model: a strict sign change across the located root is classified as a crossing whatever the scale "
+        "of the event function (only signs enter); a successfully located compatible crossing passes the direction mask; every monitored "
+        "event whose probe passes the mask is reported unless a terminal event with an earlier-or-equal root cuts the step; non-terminal "
+        "events never hide each other (any number of events). NOT provable because false of the code: that the root finder reports success "
+        "for every sign change (absolute success test, C14's finding) - steep events are missed (known finding P12). The whole chain is "
+        "evaluated on the implementation: sign of g at consecutive recorded samples vs reported events.",
+   note="Trusted: Lean kernel, standard axioms, harness. Completeness is relative to the root finder's success flag.",
+   technique="Lean 4 proof (completeness of sort+truncate) + per-step replay + sign-change oracle on recorded samples",
+   design="5 (C07-C09)"),
+ "C09": dict(
+   text="Partial proof on the selection model and the loop model: a reported terminal event is the last reported event of its step, terminate "
+        "is raised exactly when one is reported, it is the earliest active terminal event in the direction of integration, everything "
+        "reported is sorted; the stop is an ordinary integrate(root) call, so the C03 theorem gives 'last recorded time within tolerance of "
+        "the event time, nothing beyond'. Compared on the implementation: stop time, last state on the event surface, nothing beyond, "
+        "status, monotone trajectory, dense-output order, continuation to the requested end. Known findings: dense output keeps the piece "
+        "of the rolled-back step (P11); event time located on the cubic dense output.",
+   note="Trusted: Lean kernel, standard axioms, harness. The roll-back and the recursion into integrate(root) are not part of the loop model; "
+        "their effect is compared on the implementation.",
+   technique="Lean 4 proof (truncation lemmas + C03 loop theorem) + per-step replay + terminal-stop oracles",
+   design="5 (C07-C09)"),
  "C15": dict(
    text="Partial proof. The convergence of the iterations is numerical analysis and is not proved. Proved on a Lean model of the decision "
         "logic of nonlinear_roots over what its back ends report (MINPACK for numpy dtypes up to 64 bits, the built-in dogleg hybrj "
